@@ -26,7 +26,7 @@
 (* history mode (TrackHist) a whole behaviour is printed when it reaches   *)
 (* HistLen notifications.                                                  *)
 (***************************************************************************)
-EXTENDS Naturals, Sequences, FiniteSets, TLC, Json
+EXTENDS Naturals, Sequences, FiniteSets, TLC, Json, IOUtils
 
 CONSTANTS MaxLen,      \* bound on the client's document length (units)
           MaxIns,      \* bound on the inserted text of one change
@@ -37,6 +37,12 @@ CONSTANTS MaxLen,      \* bound on the client's document length (units)
 Units     == {"a", "nl", "crlf", "c2", "c3", "c4"}
 IsBreak(u) == u \in {"nl", "crlf"}
 Utf16(u)  == IF u = "c4" THEN 2 ELSE 1
+Utf8(u)   == CASE u = "c2" -> 2 [] u = "c3" -> 3 [] u = "c4" -> 4 [] u = "crlf" -> 2 [] OTHER -> 1
+\* The unit columns are counted in: LSP 3.17 lets client and server negotiate it (general.positionEncodings /
+\* capabilities.positionEncoding); without negotiation it is UTF-16.  Environment DOCSYNC_ENC selects the encoding the
+\* histories are written for (the driver plays the histories of the encoding the real server agreed to).
+Enc       == IF "DOCSYNC_ENC" \in DOMAIN IOEnv THEN IOEnv.DOCSYNC_ENC ELSE "utf-16"
+ColLen(u) == CASE Enc = "utf-8" -> Utf8(u) [] Enc = "utf-32" -> 1 [] OTHER -> Utf16(u)
 
 Texts(n)  == UNION {[1..k -> Units] : k \in 0..n}
 Forgotten == <<"FORGOTTEN">>            \* not a text: "FORGOTTEN" is not a unit
@@ -47,7 +53,7 @@ vars == <<open, client, server, hist>>
 -----------------------------------------------------------------------------
 (* positions as an LSP client computes them (line break = LF or CRLF)      *)
 RECURSIVE Sum16(_, _, _)
-Sum16(d, lo, hi) == IF lo > hi THEN 0 ELSE Utf16(d[lo]) + Sum16(d, lo + 1, hi)
+Sum16(d, lo, hi) == IF lo > hi THEN 0 ELSE ColLen(d[lo]) + Sum16(d, lo + 1, hi)
 
 LastBreak(d, i) == LET S == {k \in 1..i : IsBreak(d[k])}
                    IN IF S = {} THEN 0 ELSE CHOOSE k \in S : \A j \in S : j <= k
